@@ -7,7 +7,11 @@ N_CASES = {"quick": 360, "thorough": 6000}
 N_SEARCH = {"quick": 2, "thorough": 3}
 SHARD = 200
 HAS_MODEL_OUT = True
-RULE = ("[plus, class race-rel: 30*N (quick) / 8*N (thorough) free-running iterations in which the release of the last "
+RULE = ("[plus, op query in the random, exhaustive, race and intr classes: a DNS question (TXT at the apex of the zone every "
+        "fake backend serves, or a name error below it) sent through ServeDNSWithRCODE of the handler under test, the response "
+        "cache enabled on about two thirds of the handlers so that a repeated question is a cache hit; the model takes the "
+        "lookups as observed and requires acquisition and exactly one release inside the step] "
+        "[plus, class race-rel: 30*N (quick) / 8*N (thorough) free-running iterations in which the release of the last "
         "reader of the served backend and the operation that retires that backend (reload to a new backend, shutdown) run in "
         "two goroutines with a start skew that homes in on the collision of their DB.l critical sections; identical "
         "observations are evaluated once (mult)] "
@@ -61,7 +65,7 @@ def cand(o):
     return "CErr"
 
 
-def op_coq(o):
+def op_coq(o, ev=None):
     k = o["k"]
     if k == "acq":
         return "(OAcq %d)" % o.get("r", 0)
@@ -79,6 +83,10 @@ def op_coq(o):
         return "(OLate %d %s)" % (o.get("i", 0), cand(o))
     if k == "shutdown":
         return "Shutdown"
+    if k == "query":
+        # the lookups of the query: everything between NewContext, ClosestKeyFinder and the last call
+        mid = [e[1] for e in (ev or [])[2:-1]]
+        return "(Query %s)" % clist([cN(x) for x in mid])
     raise ValueError("unknown op " + k)
 
 
@@ -94,7 +102,7 @@ def to_coq(c):
             clist(["Rf %d %d %s" % (b, rc, cbool(d)) for b, rc, d in s["refs"]]),
             clist(["Pn %d %d" % (sl, b) for sl, b in s["pins"]]),
             cN(s["uac"]), cN(s["dc"]))
-        steps.append("St %s %s" % (op_coq(s["op"]), obs))
+        steps.append("St %s %s" % (op_coq(s["op"], s["events"]), obs))
     return "mk %s %s %s" % (cbool(c["guard"]), events(c["init"]), clist(steps))
 
 
